@@ -248,6 +248,10 @@ class Sim:
             (new,) = args
             exp = self._rekey(h, new)
             act = lambda: setattr(job, "statepoint", copy.deepcopy(new))
+        elif op == "sp_assign_bad":
+            # an assignment that must be refused as a whole (a valid key followed by an invalid one / a non-string key): no effect at all
+            new, exp = args
+            act = lambda: setattr(job, "statepoint", copy.deepcopy(new))
         elif op == "sp_update":
             upd, overwrite = args
             if not overwrite and any(k in h.sp and h.sp[k] != v for k, v in upd.items()):
